@@ -11,6 +11,8 @@ pub mod c13;
 pub mod c14;
 pub mod c15;
 pub mod c18;
+pub mod c19;
+pub mod c20;
 
 use crate::engine::{CheckReport, RunCfg};
 use serde_json::Value;
@@ -39,5 +41,7 @@ pub fn registry() -> Vec<PropEntry> {
         PropEntry { id: "C15", run: c15::run, replay: c15::replay },
         PropEntry { id: "C17", run: text::c17_run, replay: text::c17_replay },
         PropEntry { id: "C18", run: c18::run, replay: c18::replay },
+        PropEntry { id: "C19", run: c19::run, replay: c19::replay },
+        PropEntry { id: "C20", run: c20::run, replay: c20::replay },
     ]
 }
